@@ -389,6 +389,104 @@ def small_parsers(ctx, n):
     return xcheck
 
 
+# ----------------------------------------------------------------------------- (b') value-exactness on well-formed input
+RW = {"rw": 6, "r-": 4, "-w": 2, "--": 0}
+
+
+def mode_value(m):
+    """independent statement of what a valid nine-character mode denotes (None = not valid)"""
+    if len(m) != 9 or any(m[i : i + 2] not in RW for i in (0, 3, 6)) or m[2] not in "sx-" or m[5] not in "sx-" or m[8] not in "tx-":
+        return None
+    v = (RW[m[0:2]] << 6) | (RW[m[3:5]] << 3) | RW[m[6:8]]
+    v |= {"s": 0o4100, "x": 0o100, "-": 0}[m[2]] | {"s": 0o2010, "x": 0o010, "-": 0}[m[5]] | {"t": 0o1000, "x": 0o001, "-": 0}[m[8]]
+    return v
+
+
+def wellformed_exact(ctx, n):
+    """Inputs that satisfy exactly the hypotheses of the C19_*_exact theorems; the expected value is computed from the COMPONENTS
+    (independently of model and implementation); both the model and the real parser must return it."""
+    rng = ctx.rng
+    c = aioftp.Client()
+    xcheck = []
+
+    def check(name, inp, expected, mo, r):
+        ctx.case(("wf", name, inp if isinstance(inp, str) else bytes(inp)))
+        ctx.count("wellformed:" + name)
+        if mo != expected:
+            ctx.disagree("wellformed-exact-model:" + name, repr(inp)[:300], str(mo)[:300], str(expected)[:300])
+        if r != expected:
+            ctx.disagree("wellformed-exact:" + name, repr(inp)[:300], str(expected)[:300], str(r)[:300])
+
+    # MLSx
+    cases = [G.wf_mlsx(rng) for _ in range(n)]
+    outs = ctx.model([(5, [0, line.encode()]) for _, line in cases])
+    for ((facts, name), line), o in zip(cases, outs):
+        exp = {}
+        for k, v in facts:
+            exp[k.lower()] = v
+        r, _ = call(c.parse_mlsx_line, line.encode())
+        ctx.traces_impl += 1
+        check("mlsx", line, ("ok", (str(pathlib.PurePosixPath(name)), exp)), m_res(o, m_entry), ("ok", i_entry(r[1])) if r[0] == "ok" else r)
+    xcheck += [(5, [0, cases[0][1].encode()], outs[0])]
+    # EPSV
+    cases = [G.wf_epsv(rng) for _ in range(n)]
+    outs = ctx.model([(7, [s]) for _, s in cases])
+    for (ds, s), o in zip(cases, outs):
+        r, _ = call(lambda x: (lambda v: (v[0], big_str(v[1])))(c.parse_epsv_response(x)), s)
+        ctx.traces_impl += 1
+        check("epsv", s, ("ok", (None, big_str(int(ds)))), m_res(o, lambda v: (None, sx.txt(v))), r)
+    # PASV
+    cases = [G.wf_pasv(rng) for _ in range(n)]
+    outs = ctx.model([(6, [s]) for _, s in cases])
+    for (ds, s), o in zip(cases, outs):
+        nums = [int(d) for d in ds]
+        exp = (".".join(big_str(v) for v in nums[:4]), big_str((nums[4] << 8) | nums[5]))
+        r, _ = call(lambda x: (lambda v: (v[0], big_str(v[1])))(c.parse_pasv_response(x)), s)
+        ctx.traces_impl += 1
+        check("pasv", s, ("ok", exp), m_res(o, lambda v: (sx.txt(v[0]), sx.txt(v[1]))), r)
+    # 257
+    cases = [G.wf_dir(rng) for _ in range(n)]
+    outs = ctx.model([(8, [s]) for _, s in cases])
+    for (d, s), o in zip(cases, outs):
+        r, _ = call(lambda x: str(c.parse_directory_response(x)), s)
+        ctx.traces_impl += 1
+        check("257", s, ("ok", str(pathlib.PurePosixPath(d))), ("ok", sx.txt(o)), r)
+    # unix ls -l line (not a link)
+    cases = []
+    while len(cases) < n:
+        comp, line = G.wf_unix(rng)
+        if mode_value(comp[1]) is not None:
+            cases.append((comp, line))
+    rec = DateRecorder(c)
+    ins, exps, impl = [], [], []
+    for (t, m, links, owner, group, size, date, name), line in cases:
+        b = line.encode()
+        rec.calls = []
+        r, _ = call(c.parse_list_line_unix, b)
+        ctx.traces_impl += 1
+        if rec.calls[:1] != [date.strip()]:
+            ctx.disagree("wellformed-exact:unix-date-argument", repr(line), date.strip(), rec.calls[:1])
+            o1 = ("exc", "ValueError")
+        else:
+            o1 = rec.outcome(date.strip())
+        if o1[0] == "ok":
+            ty = {"-": "file", "d": "dir"}.get(t, "unknown")
+            exp = ("ok", (str(pathlib.PurePosixPath(name)), {"type": ty, "unix.mode": str(mode_value(m)), "unix.links": links, "unix.owner": owner,
+                                                           "unix.group": group, "size": size, "modify": o1[1]}))
+        else:
+            exp = o1
+        ins.append((2, [0, b, enc_oracle(o1)]))
+        exps.append(exp)
+        impl.append(("ok", i_entry(r[1])) if r[0] == "ok" else r)
+    outs = ctx.model(ins)
+    for (comp, line), o, exp, r in zip(cases, outs, exps, impl):
+        check("unix", line, exp, m_res(o, m_entry), r)
+        ctx.count("wellformed:unix-date-" + exp[0])
+    xcheck += [(ins[0][0], ins[0][1], outs[0])]
+    ctx.sample({"stream": "wellformed-exact", "unix": cases[0][1], "expected": str(exps[0])[:200]})
+    return xcheck
+
+
 # ----------------------------------------------------------------------------- (c) reply streams, parse_command
 class NullWriter:
     def close(self):
@@ -975,7 +1073,8 @@ def correspondence(ctx, scale=1.0):
         "metacharacter / unicode-digit / unicode-space inserts, truncation, duplication, field swaps, non-UTF-8, long fields) plus truncation at "
         "EVERY position of valid lines, utf-8 and latin-1; all four parsers run on every line; (b) parse_unix_mode exhaustive over a 7-symbol "
         "alphabet up to length 3 plus every single-character substitution of valid modes; PASV / EPSV / 257 payloads from grammars plus text "
-        "mutation; int / PurePosixPath / utf-8 library models; MLST replies; (c) reply streams and control lines fed to the real parse_response / "
+        "mutation; int / PurePosixPath / utf-8 library models; MLST replies; (b') well-formed MLSx / EPSV / PASV / 257 / unix lines built from "
+        "random components under exactly the hypotheses of the C19_*_exact theorems, expected value computed from the components; (c) reply streams and control lines fed to the real parse_response / "
         "parse_command through a StreamReader with limits 64 and 65536 under random segmentation; (d) Client.list() over loopback against a "
         "scripted fake FTP server (MLSD and LIST fallback, recursion, '.'/'..', nameless lines, over-long lines); (e) hostile loopback sessions "
         "against the real server with a witness client. A case is non-trivial when its input is distinct (hash of input)."
@@ -983,6 +1082,7 @@ def correspondence(ctx, scale=1.0):
     x = []
     x += listing_lines(ctx, int(16000 * f))
     x += small_parsers(ctx, int(2000 * f))
+    x += wellformed_exact(ctx, int(600 * f))
     x += reply_and_command_streams(ctx, int(2500 * f))
     x += lister_cases(ctx, int(500 * f))
     loop = asyncio.new_event_loop()
